@@ -80,7 +80,9 @@ def cc_checks(workdir, res):
     out = {}
     logs = {}
     # warnings about what the *user's* expression says (x == x, bool compared with 2, ...) are not the generator's doing
-    USERW = ['-Wno-tautological-compare', '-Wno-bool-compare']
+    # diagnostics about the *user's* constant expressions (x == x, 'a' % 0, '0' * '0' << 21, v << 36 ...) are the user's, not nmfu's
+    USERW = ['-Wno-tautological-compare', '-Wno-bool-compare', '-Wno-div-by-zero', '-Wno-shift-overflow', '-Wno-shift-count-overflow',
+             '-Wno-shift-count-negative', '-Wno-shift-negative-value', '-Wno-overflow']
     for key, cmd in (('c99', ['gcc', '-std=c99', '-Wall', '-Werror', '-Wno-unused-label'] + USERW + ['-c', 'p.c', '-o', 'p99.o']),
                      ('c11', ['gcc', '-std=c11', '-Wall', '-Werror', '-Wno-unused-label'] + USERW + ['-c', 'p.c', '-o', 'p11.o']),
                      ('cxx', ['g++', '-std=c++11', '-Wall', '-Werror', '-fsyntax-only', 'hdr.cpp']),
